@@ -104,9 +104,12 @@ func LinkObject(dir, obj, exe string, asan bool, listDefs bool, extra ...string)
 }
 
 // Classify the stderr/exit of a program run.
+// the runtime installs a SIGSEGV handler that reports "Laufzeitfehler: Segmentation fault" and exits 1:
+// that is a crash, not a Laufzeitfehler of the language
 func IsLaufzeitfehler(r Result) bool {
-	return r.Exit == 1 && r.Signal == "" && strings.Contains(r.Stderr, "Laufzeitfehler")
+	return r.Exit == 1 && r.Signal == "" && strings.Contains(r.Stderr, "Laufzeitfehler") && !IsSegfault(r)
 }
+func IsSegfault(r Result) bool { return strings.Contains(r.Stderr, "Segmentation fault") }
 func IsSanitizerReport(r Result) bool {
 	return r.Exit == 99 || strings.Contains(r.Stderr, "AddressSanitizer") || strings.Contains(r.Stderr, "runtime error:") || strings.Contains(r.Stderr, "LeakSanitizer")
 }
